@@ -1721,7 +1721,11 @@ class NumPyArray(Adapter):
         return buf_array.reshape((num_ndims, self.elems))
 
     def encode(self, val, ctx: Optional[ParseContext]) -> Any:
-        val: np.ndarray = np.array(val, dtype=self.dtype).flatten()
+        src = np.asarray(val)
+        val: np.ndarray = src.astype(self.dtype).flatten()
+        # Casting to an integer dtype wraps / truncates whatever doesn't fit, refuse instead
+        if np.issubdtype(self.dtype, np.integer) and not np.array_equal(val, src.flatten()):
+            raise ValueError(f"{src!r} can't be represented as {self.dtype}")
         return val.tobytes()
 
 
